@@ -432,7 +432,20 @@ pub fn generate(rng: &mut Rng, cfg: &GenCfg) -> Universe {
         u.hosts.push(UHost {
             name,
             v4: if has4 { Some(Ipv4Addr::new(192, 0, (i / 200) as u8 + 2, (i % 200) as u8 + 1)) } else { None },
-            v6: if has6 { Some(Ipv6Addr::new(0x2001, 0xdb8, 0x53, 0, 0, 0, 0, i as u16)) } else { None },
+            v6: if has6 {
+                // one host in four has an IPv6 address of a form that embeds an IPv4 address (mapped, compatible,
+                // 6to4, NAT64): still an IPv6 address, and to be contacted as one (S-C18-2)
+                let (hi, lo) = (0xc633u16, ((100 + i / 200) as u16) << 8 | ((i % 200) as u16 + 1)); // 198.51.100+.x: nobody's IPv4 address
+                Some(match rng.below(16) {
+                    0 => Ipv6Addr::new(0, 0, 0, 0, 0, 0xffff, hi, lo),
+                    1 => Ipv6Addr::new(0, 0, 0, 0, 0, 0, hi, lo),
+                    2 => Ipv6Addr::new(0x2002, hi, lo, 0, 0, 0, 0, i as u16),
+                    3 => Ipv6Addr::new(0x64, 0xff9b, 0, 0, 0, 0, hi, lo),
+                    _ => Ipv6Addr::new(0x2001, 0xdb8, 0x53, 0, 0, 0, 0, i as u16),
+                })
+            } else {
+                None
+            },
         });
         u.hosts.len() - 1
     };
